@@ -89,3 +89,18 @@ Definition fpl2m_case_premise (c : fpl2m_case) : bool :=
   && pelt_trace_finite (CfM (m2_cols c)) (m2_pen c) (m2_m c) (m2_m c - 1) (m2_n c)
   && pelt_mag_ok (CfM (m2_cols c)) (m2_pen c) (m2_m c) (m2_m c - 1) (m2_n c) (m2_mag c)
   && agg_mag_ok (m2_cols c) (m2_n c) (m2_mag c) && l2_absmax_ok_cols (m2_cols c) (m2_b c).
+
+(** CAPA with the L2 saving on SEVERAL columns (Properties/C03_binary64_l2_columns.v): all betas zero (what the CAPA class uses), the row sum in NumPy's order ([gsum] is the left fold). *)
+From SK Require Import Proofs.CapaFloatL2Multi.
+Record fcl2m_case := { h2_cols : list (list float); h2_n : nat; h2_ac : float; h2_ap : float; h2_m : nat; h2_M : nat; h2_mag : float; h2_b : float;
+                       h2_scores : list float; h2_coll : list (nat * nat); h2_pts : list (nat * nat) }.
+Definition fcl2m_case_ok (c : fcl2m_case) : bool :=
+  let z := repeat 0%float (length (h2_cols c)) in
+  let '(sc, co, pt) := gcapa F64 F64_tiny (l2ScFM (h2_cols c)) (l2SpFM (h2_cols c)) (h2_ac c) z (h2_ap c) z (h2_m c) (h2_M c) (h2_m c - 1) (h2_n c) in
+  flist_same sc (h2_scores c) && plist_same (sort_pairs co) (sort_pairs (h2_coll c)) && plist_same (sort_pairs pt) (sort_pairs (h2_pts c)).
+Definition fcl2m_case_premise (c : fcl2m_case) : bool :=
+  let z := repeat 0%float (length (h2_cols c)) in
+  cols_length_ok (h2_cols c) (h2_n c) && l2_saving_all_trace_ok_cols (h2_cols c)
+  && capa_trace_finite F64_tiny (l2ScFM (h2_cols c)) (l2SpFM (h2_cols c)) (h2_ac c) (h2_ap c) z z (h2_m c) (h2_M c) (h2_m c - 1) (h2_n c)
+  && capa_mag_ok F64_tiny (l2ScFM (h2_cols c)) (l2SpFM (h2_cols c)) (h2_ac c) (h2_ap c) z z (h2_m c) (h2_M c) (h2_m c - 1) (h2_n c) (h2_mag c)
+  && sav_agg_mag_ok (h2_cols c) (h2_n c) (h2_mag c) && l2_absmax_ok_cols (h2_cols c) (h2_b c).
